@@ -106,7 +106,7 @@ namespace detail
 				return Tmp + (Multiple - (Tmp % Multiple));
 			}
 			else
-				return Source + (-Source % Multiple);
+				return Source - (Source % Multiple); // the remainder of a negative Source is negative: no negation (which overflows for the most negative value)
 		}
 	};
 
